@@ -24,8 +24,12 @@ def install(ext, schema):
     m[('EioServer', 'send')] = eio_server_send
     m[('EioServer', 'send_packet')] = eio_server_send_packet
     m[('EioServer', 'start_background_task')] = eio_start_background_task
-    m[('EioClient', 'start_background_task')] = eio_start_background_task
+    m[('EioClient', 'start_background_task')] = eio_client_start_task
+    m[('EioClient', 'disconnect')] = eio_client_disconnect
+    m[('EioClient', 'create_event')] = eio_create_event
+    m[('EioServer', 'create_event')] = eio_create_event
     m[('EioServer', 'get_session')] = eio_get_session
+    m[('EioClient', 'send')] = eio_client_send
     m[('Task', 'add_done_callback')] = lambda eng, ctx, args, kwargs, me: iter([(ctx, S(NONE))])
     m[('Task', 'join')] = lambda eng, ctx, args, kwargs, me: iter([(ctx, S(NONE))])
 
@@ -97,3 +101,57 @@ def eio_get_session(eng, ctx, args, kwargs):
                 sv2 = c2.st.get('eio', 'sessions')
                 c2.st = c2.st.set('eio', 'sessions', sv2.with_child(('k', ev), SV.empty(MapT(Leaf('V')))))
             yield c2, Ref('eio', 'sessions', (('k', ev),))
+
+
+THE_CONNECTION = smt.atom('the-connection')
+
+
+def eio_client_send(eng, ctx, args, kwargs):
+    eng.ext.note('engine.io client send(data) queues exactly one frame on the connection, in call order, and does not raise')
+    (data,) = args.items()
+    log_append(_C(eng, ctx), 'g', 'raw', key=THE_CONNECTION, frame=data)
+    yield ctx, S(NONE)
+
+
+def eio_client_start_task(eng, ctx, args, kwargs):
+    """client side: the task is recorded (g.tasks), not run inline: it runs in the background after the caller returns"""
+    eng.ext.note('engine.io client start_background_task(f, *args) starts f(*args) exactly once in the background (recorded in g.tasks)')
+    from pyvc.vals import PySeq, Fixed, Fn
+    f = args.segs[0].items[0]
+    rest = PySeq(eng._drop_front(args, 1), 'tuple')
+    name = smt.atom('task:' + (getattr(f, 'name', None) or 'callable')) if isinstance(f, Fn) else eng.to_v(ctx, f)
+    log_append(_C(eng, ctx), 'g', 'tasks', fn=name, args=rest)
+    t = smt.fresh('task', V)
+    ctx.assume(t != NONE, smt.truthy(t), smt.kind(t) == smt.K_OTHER)
+    yield ctx, S(t)
+
+
+def eio_create_event(eng, ctx, args, kwargs):
+    e = smt.fresh('event', V)
+    evs = ctx.st.get('g', 'events')
+    ctx.assume(e != NONE, smt.truthy(e), smt.kind(e) == smt.K_OTHER, z3.Not(evs.c['.'][e]))
+    yield ctx, S(e)
+
+
+CONNECTED, DISCONNECTING, DISCONNECTED = smt.atom('connected'), smt.atom('disconnecting'), smt.atom('disconnected')
+
+
+def eio_client_disconnect(eng, ctx, args, kwargs):
+    """engine.io 4.14 Client.disconnect(abort=False, reason=None): when the state is 'connected', the state becomes
+    'disconnecting', the 'disconnect' handler is invoked synchronously exactly once with reason or CLIENT_DISCONNECT, then the
+    state is 'disconnected'; otherwise nothing is invoked."""
+    from pyvc.vals import PySeq, Fixed, Fn
+    from pyvc.model import SV, Leaf
+    eng.ext.note('engine.io client disconnect(): if connected -> state disconnecting, the disconnect handler runs synchronously exactly once, state disconnected; else nothing (read from engine.io 4.14.0 client.py)')
+    st = ctx.st.get('eio', 'state').leaf()
+    reason = kwargs.get('reason')
+    for c, isconn in eng.branch(ctx, st == CONNECTED):
+        if not isconn:
+            yield c, S(NONE)
+            continue
+        c.st = c.st.set('eio', 'state', SV(Leaf('V'), {'': DISCONNECTING}))
+        r = reason if reason is not None and not (isinstance(reason, S) and z3.eq(reason.t, NONE)) else S(smt.atom('reason:client disconnect'))
+        f = Fn('method', obj='client', name='_handle_eio_disconnect', start_after=None)
+        for c2, res in eng.call(c, f, PySeq([Fixed([r])], 'tuple'), {}):
+            c2.st = c2.st.set('eio', 'state', SV(Leaf('V'), {'': DISCONNECTED}))
+            yield c2, (res if isinstance(res, Raised) else S(NONE))
